@@ -83,6 +83,11 @@ Definition evals_of (ev : expr -> M) : list expr -> res (list val + val) :=
 Definition fold_go (stp : val -> val -> M) : list val -> val -> M :=
   fix go (xs : list val) (acc : val) : M := match xs with [] => ret acc | x :: xs' => bindv (stp acc x) (fun acc' => go xs' acc') end.
 
+Definition arms_of (ev : expr -> M) (z : Z) (arms : list (Z * expr)) (d : expr) : M :=
+  (fix go (arms : list (Z * expr)) : M := match arms with [] => ev d | (k, e) :: t => if Z.eqb z k then ev e else go t end) arms.
+Lemma arms_find ev z arms d : arms_of ev z arms d = ev (find_arm z arms d).
+Proof. unfold arms_of. induction arms as [|[k e] t IH]; [reflexivity|]. cbn [find_arm]. destruct (Z.eqb z k); [reflexivity|exact IH]. Qed.
+
 Lemma eval_S fuel env e : eval (S fuel) env e =
   let evals := evals_of (eval fuel env) in
   match e with
@@ -94,7 +99,7 @@ Lemma eval_S fuel env e : eval (S fuel) env e =
       | Ok (inl vs) => match tbl f with Some d => match eval fuel vs (f_body d) with Ok (CVal v) | Ok (CRet v) => ret v | other => other end | None => Stuck "nofn" end
       | Ok (inr v) => Ok (CRet v) | Panic => Panic | UB s => UB s | OutOfFuel => OutOfFuel | Stuck s => Stuck s end
   | EIf c t f => bindv (eval fuel env c) (fun v => match v with VB true => eval fuel env t | VB false => eval fuel env f | _ => Stuck "if" end)
-  | EMatchI s arms d => bindv (eval fuel env s) (fun v => match v with VI _ z => eval fuel env (find_arm z arms d) | _ => Stuck "matchi" end)
+  | EMatchI s arms d => bindv (eval fuel env s) (fun v => match v with VI _ z => arms_of (eval fuel env) z arms d | _ => Stuck "matchi" end)
   | EMatchOpt s sm nn => bindv (eval fuel env s) (fun v => match v with VOpt (Some x) => eval fuel (env ++ [x]) sm | VOpt None => eval fuel env nn | _ => Stuck "matchopt" end)
   | EBlock ss tl => match exec fuel env ss with Ok (SNorm env') => eval fuel env' tl | Ok (SRet v) => Ok (CRet v) | Panic => Panic | UB s => UB s | OutOfFuel => OutOfFuel | Stuck s => Stuck s end
   | EPanic => Panic
@@ -117,7 +122,9 @@ Lemma exec_S fuel env ss : exec (S fuel) env ss =
     | SExpr e => match eval fuel env e with Ok (CVal _) => exec fuel env rest | Ok (CRet v) => Ok (SRet v) | Panic => Panic | UB s => UB s | OutOfFuel => OutOfFuel | Stuck s => Stuck s end
     | SAssert c => match eval fuel env c with Ok (CVal (VB true)) => exec fuel env rest | Ok (CVal (VB false)) => Panic | Ok (CVal _) => Stuck "assert" | Ok (CRet v) => Stuck "assert-return" | Panic => Panic | UB s => UB s | OutOfFuel => OutOfFuel | Stuck s => Stuck s end
     | SIf c t f => match eval fuel env c with
-        | Ok (CVal (VB b)) => match exec fuel env (if b then t else f) with Ok (SNorm env') => exec fuel (firstn n env') rest | other => other end
+        | Ok (CVal (VB b)) =>
+            if b then match exec fuel env t with Ok (SNorm env') => exec fuel (firstn n env') rest | other => other end
+            else match exec fuel env f with Ok (SNorm env') => exec fuel (firstn n env') rest | other => other end
         | Ok (CVal _) => Stuck "sif" | Ok (CRet v) => Ok (SRet v) | Panic => Panic | UB s => UB s | OutOfFuel => OutOfFuel | Stuck s => Stuck s end
     end
   end.
@@ -158,7 +165,7 @@ Proof.
     + destruct (evals_of (eval fuel env) args) as [[vs|w]| | | |] eqn:E; try discriminate H; rewrite (IHes _ _ _ E); [|exact H].
       destruct (tbl f) as [d|]; [|exact H]. ev1 H IHe; exact H.
     + ev1 H IHe; [|exact H]. destruct v; try discriminate H. destruct b; apply IHe; exact H.
-    + ev1 H IHe; [|exact H]. destruct v; try discriminate H. apply IHe; exact H.
+    + ev1 H IHe; [|exact H]. destruct v; try discriminate H. rewrite arms_find in H |- *. apply IHe; exact H.
     + ev1 H IHe; [|exact H]. destruct v; try discriminate H. destruct o; apply IHe; exact H.
     + destruct (exec fuel env ss) as [[env'|v]| | | |] eqn:E; try discriminate H; rewrite (IHs _ _ _ E); [apply IHe; exact H|exact H].
     + ev1 H IHe; exact H.
@@ -170,7 +177,9 @@ Proof.
     + ev1 H IHe; [|exact H]. unfold rbind in *. destruct (pset OP env p v); try discriminate H; try exact H. apply IHs; exact H.
     + destruct (eval fuel env c) as [[v|v]| | | |] eqn:E; try discriminate H; rewrite (IHe _ _ _ E); [|exact H].
       destruct v; try discriminate H; try exact H.
-      destruct (exec fuel env (if b then t else e)) as [[env'|w]| | | |] eqn:E2; try discriminate H; rewrite (IHs _ _ _ E2); [apply IHs; exact H|exact H].
+      destruct b.
+      * destruct (exec fuel env t) as [[env'|w]| | | |] eqn:E2; try discriminate H; rewrite (IHs _ _ _ E2); [apply IHs; exact H|exact H].
+      * destruct (exec fuel env e) as [[env'|w]| | | |] eqn:E2; try discriminate H; rewrite (IHs _ _ _ E2); [apply IHs; exact H|exact H].
     + ev1 H IHe; [apply IHs; exact H|exact H].
     + ev1 H IHe. destruct v; try discriminate H; try exact H. destruct b; [apply IHs; exact H|exact H].
 Qed.
@@ -215,7 +224,7 @@ Proof.
       destruct (tbl f) as [d|]; [|discriminate Hf]. destruct (tbl f0) as [d0|]; [|discriminate Hf].
       ev2 H IHe Hf; exact H.
     + splitb Hr. ev2 H IHe Hr; [|exact H]. destruct v; try discriminate H. destruct b; (eapply IHe; [|exact H]; eassumption).
-    + splitb Hr. ev2 H IHe Hr; [|exact H]. destruct v; try discriminate H. eapply IHe; [|exact H]. apply find_arm_rel; eassumption.
+    + splitb Hr. ev2 H IHe Hr; [|exact H]. destruct v; try discriminate H. rewrite arms_find in H |- *. eapply IHe; [|exact H]. apply find_arm_rel; eassumption.
     + splitb Hr. ev2 H IHe Hr; [|exact H]. destruct v; try discriminate H. destruct o; (eapply IHe; [|exact H]; eassumption).
     + cbn [rel] in Hr. apply orb_true_iff in Hr. destruct Hr as [Hr|Hr].
       * destruct p; try discriminate Hr. splitb Hr. rewrite eval_S. cbv zeta.
